@@ -218,39 +218,53 @@ func OtherID(code *jen.Statement) *JenID {
 
 // TypeOf creates a Type.
 func TypeOf(t types.Type) *Type {
+	return typeOf(t, map[*types.Named]*Type{})
+}
+
+// typeOf creates a Type. seen ties the knot for self-referential named types
+// like "type List []List", which would otherwise recurse forever.
+func typeOf(t types.Type, seen map[*types.Named]*Type) *Type {
 	t = types.Unalias(t)
+	if named, ok := t.(*types.Named); ok {
+		if rt, ok := seen[named]; ok {
+			return rt
+		}
+	}
 	rt := &Type{}
 	rt.T = t
 	rt.String = t.String()
-	applyTo(rt, t)
+	if named, ok := t.(*types.Named); ok {
+		seen[named] = rt
+	}
+	applyTo(rt, t, seen)
 	return rt
 }
 
-func applyTo(rt *Type, t types.Type) {
+func applyTo(rt *Type, t types.Type, seen map[*types.Named]*Type) {
 	switch value := t.(type) {
 	case *types.Pointer:
 		rt.Pointer = true
 		rt.PointerType = value
-		rt.PointerInner = TypeOf(value.Elem())
+		rt.PointerInner = typeOf(value.Elem(), seen)
 	case *types.Basic:
 		rt.Basic = true
 		rt.BasicType = value
 	case *types.Map:
 		rt.Map = true
 		rt.MapType = value
-		rt.MapKey = TypeOf(value.Key())
-		rt.MapValue = TypeOf(value.Elem())
+		rt.MapKey = typeOf(value.Key(), seen)
+		rt.MapValue = typeOf(value.Elem(), seen)
 	case *types.Slice:
 		rt.List = true
-		rt.ListInner = TypeOf(value.Elem())
+		rt.ListInner = typeOf(value.Elem(), seen)
 	case *types.Array:
 		rt.List = true
 		rt.ListFixed = true
-		rt.ListInner = TypeOf(value.Elem())
+		rt.ListInner = typeOf(value.Elem(), seen)
 	case *types.Named:
 		rt.Named = true
 		rt.NamedType = value
-		applyTo(rt, value.Underlying())
+		applyTo(rt, value.Underlying(), seen)
 	case *types.Struct:
 		rt.Struct = true
 		rt.StructType = value
